@@ -64,7 +64,9 @@ func isOption(s string, mode Mode, windows bool) ([]optionPair, bool) {
 	}
 	if len(match) > 0 {
 		// check long option
-		if match[1] == "--" || match[1] == "/" {
+		// A token that starts with two dashes is a long option in every mode,
+		// also when the regex matched a single dash ("--=arg" is the option "-").
+		if match[1] == "--" || match[1] == "/" || strings.HasPrefix(s, "--") {
 			opt := optionPair{}
 			opt.Option = match[2]
 			var args string
